@@ -15,7 +15,7 @@ RULE = ("cases = one script line each (subscribe/accept/reject/abandoned call/dr
         "oracle (tools/props/subhist_common.py:oracles) is evaluated on the implementation output alone.  Sources: fixed "
         "corpus, random walks (+ the same walk with a connection drop injected), long multi-subscription walks, and the "
         "exhaustive space of short scripts (sampled in the quick tier), and the multi-connection families of C06's entry-point "
-        "dimension (script token E<server|tower>: the same script on a Server::start server and on a tower service built from clones of one "
+        "dimension (script token E<server|tower|towermw>: the same script on a Server::start server and on tower services built from clones of one "
         "TowerServiceBuilder, see tools/props/subhist_common.py:entry_cases).  distinct non-trivial = distinct result lines in "
         "which at least one notification frame was delivered.  Back-pressure (engine sinkbp): cases = one script line each "
         "(send/try_send/send_timeout of fresh messages, re-send of a handed-back message through each path, recv, close; "
